@@ -53,7 +53,7 @@ var drainLadder = []time.Duration{0, time.Millisecond, time.Second, 30 * time.Se
 
 var itemKinds = []string{"worker", "runworker", "svc", "task", "tasksched", "mthigh", "mtmed", "mtlow", "mtrunhigh", "mtrunmed", "mtrunlow", "sighigh", "sigmed", "siglow", "hook"}
 
-const nPanicKinds = 6
+const nPanicKinds = 8
 
 type customPanic struct {
 	A int
@@ -72,6 +72,10 @@ func panicValue(kind int, tag string) any {
 		return &modules.ModuleError{Message: "injected module error panic " + tag}
 	case 5:
 		return nil // panic(nil)
+	case 7:
+		return context.Canceled
+	case 8:
+		return fmt.Errorf("wrapped: %w", context.Canceled)
 	}
 	return nil
 }
@@ -818,11 +822,11 @@ func checkC06(s *workState, p *WorkPlan, rc *simkit.RunCtx) {
 			return
 		}
 		want := panicValue(it.Panic, fmt.Sprint(rr.Item))
-		if it.Panic != 6 && it.Panic != 5 && it.Panic != 1 && it.Panic != 4 && me.PanicValue != want {
+		if it.Panic != 6 && it.Panic != 5 && it.Panic != 1 && it.Panic != 4 && it.Panic != 8 && me.PanicValue != want {
 			rc.Fail("C06.panic-value", "panic error does not carry the panic value", fmt.Sprintf("item %d: got %v want %v", rr.Item, me.PanicValue, want))
 			return
 		}
-		if it.Panic == 1 || it.Panic == 4 {
+		if it.Panic == 1 || it.Panic == 4 || it.Panic == 8 {
 			if fmt.Sprint(me.PanicValue) != fmt.Sprint(want) {
 				rc.Fail("C06.panic-value", "panic error does not carry the panic value", fmt.Sprintf("item %d: got %v want %v", rr.Item, me.PanicValue, want))
 				return
